@@ -587,6 +587,9 @@ func c03full(p *Program, r *Report, rule string) {
 		case "(*bufio.Reader).ReadByte", "io.ReadFull", "readFrameHeader", "putBufioReader", "(*bufio.Reader).Reset":
 			ok = true
 		}
+		if !ok && !knownFuncs[cs.Name] && cs.Callee != nil && p.isLib(cs.Callee) {
+			ok = true // the reader is handed to an extracted helper; the helper's own sites are checked
+		}
 		if strings.HasPrefix(cs.Name, "newConn") {
 			ok = true
 		}
